@@ -12,5 +12,6 @@ for id in C01 C02 C03 C04 C05 C06 C07 C08 C09 C10 C11 C12 C13 C14 C15 C16 C17 C1
   [ "$n" -ge 1 ] && { bad=1; echo "$out" | grep "^VIOLATION"; }
 done
 git -C /repo checkout -- .
+git checkout -q -- evidence 2>/dev/null    # evidence written on the patched tree is not kept
 [ $bad = 0 ] && echo "harmless: no alarm" || echo "harmless: ALARM"
 exit $bad
